@@ -133,6 +133,21 @@ func (env *Env) lookup(name string) (Val, bool) {
 				return v, true
 			}
 		}
+		// a name shared by several address-taken variables (one per loop, say): the one in scope at
+		// the place the clause is evaluated
+		if env.at != nil {
+			if v := fr.resolveAt(name, env.at); v != nil {
+				if a, isAlloc := v.(*ssa.Alloc); isAlloc {
+					if av, ok2 := fr.vals[a]; ok2 {
+						if av.Addr != nil {
+							return Val{T: fx.load(fr, env.st, av.Addr, 0), Typ: derefType(a.Type())}, true
+						}
+						ad := fx.addrOfTerm(av.T, derefType(a.Type()))
+						return Val{T: fx.load(fr, env.st, ad, 0), Typ: derefType(a.Type())}, true
+					}
+				}
+			}
+		}
 		// named SSA values via DebugRef, and address-taken locals via Alloc comments
 		if v, ok := fr.debugNames()[name]; ok {
 			if a, isAlloc := v.(*ssa.Alloc); isAlloc {
@@ -245,6 +260,37 @@ func (fr *frame) resolveAt(name string, at *ssa.BasicBlock) ssa.Value {
 	var best ssa.Value
 	var bestBlock *ssa.BasicBlock
 	bestIdx := -1
+	// address-taken variables of that name: defined where they are first stored to
+	if fr.allocsByName == nil {
+		fr.allocsByName = map[string][]*ssa.Alloc{}
+		for _, b := range fr.fn.Blocks {
+			for _, ins := range b.Instrs {
+				if a, ok := ins.(*ssa.Alloc); ok && a.Comment != "" && !strings.Contains(a.Comment, " ") {
+					fr.allocsByName[a.Comment] = append(fr.allocsByName[a.Comment], a)
+				}
+			}
+		}
+	}
+	if as := fr.allocsByName[name]; len(as) > 1 {
+		for _, a := range as {
+			for _, ref := range *a.Referrers() {
+				st, ok := ref.(*ssa.Store)
+				if !ok || st.Addr != ssa.Value(a) {
+					continue
+				}
+				b := st.Block()
+				if b == nil || !b.Dominates(at) {
+					continue
+				}
+				if best == nil || (bestBlock != b && bestBlock.Dominates(b)) {
+					best, bestBlock, bestIdx = a, b, 0
+				}
+			}
+		}
+		if best != nil {
+			return best
+		}
+	}
 	for _, v := range fr.dbgAll[name] {
 		ins, ok := v.(ssa.Instruction)
 		if !ok {
@@ -255,9 +301,11 @@ func (fr *frame) resolveAt(name string, at *ssa.BasicBlock) ssa.Value {
 			continue
 		}
 		if b == at {
-			// only phis of the header itself are defined at the header
+			// at a loop header only its phis are defined; at the end of a body block everything in it is
 			if _, isPhi := v.(*ssa.Phi); !isPhi {
-				continue
+				if _, headerHasPhi := at.Instrs[0].(*ssa.Phi); headerHasPhi || len(at.Preds) > 1 {
+					continue
+				}
 			}
 		}
 		idx := 0
